@@ -51,8 +51,24 @@ pub fn judge(input: &[u8], rec: &mut Recorder) {
             "section-iterator(write_payload(tlvs()))",
             io(Builder::new(b[12], b[13]).write_payload(h.address_bytes()).and_then(|x| x.write_payload(h.tlvs())).and_then(|x| x.build())),
         ));
-        // 3. from the decoded address value, when a family is specified
-        if h.address_family() != v2::AddressFamily::Unspecified {
+        // the TLV iterator handed over after it has been (partly) consumed is still the section
+        outs.push((
+            "section-iterator-after-iteration",
+            io((|| {
+                let mut t = h.tlvs();
+                let _ = t.next();
+                let x = Builder::new(b[12], b[13]).write_payload(h.address_bytes())?;
+                let mut u = h.tlvs();
+                let _ = u.by_ref().count();
+                if h.tlv_bytes().len() % 2 == 0 {
+                    x.write_payload(t)?.build()
+                } else {
+                    x.write_payloads([u])?.build()
+                }
+            })()),
+        ));
+        // 3. from the decoded address value, when a family is specified (on the wire)
+        if fam != 0 {
             outs.push((
                 "decoded-addresses(with_addresses)",
                 io(Builder::with_addresses(h.version | h.command, h.protocol, h.addresses).write_payload(h.tlv_bytes()).and_then(|x| x.build())),
@@ -111,7 +127,7 @@ impl Monitor for C13 {
         "C13"
     }
     fn rule(&self) -> &'static str {
-        "cases = valid v2 headers (all 24 control pairs, distinct non-palindromic address bytes, TLV sections empty / well-formed / truncated / overrunning / random, payloads up to 65535 bytes incl. exactly 65535, with and without trailing bytes); each is parsed and rebuilt through the builder from (a) control bytes + address_bytes() + tlv_bytes(), (b) the decoded TLV items (write_payloads, write_tlv) when the section is well-formed, (c) the TLV iterator as a payload, (d) the decoded address value (with_addresses; write_payload) when a family is specified; every rebuild must equal the original header bytes; non-trivial = header with a payload; distinct = distinct headers"
+        "cases = valid v2 headers (all 24 control pairs, distinct non-palindromic address bytes, TLV sections empty / well-formed / truncated / overrunning / random, payloads up to 65535 bytes incl. exactly 65535, with and without trailing bytes); each is parsed and rebuilt through the builder from (a) control bytes + address_bytes() + tlv_bytes(), (b) the decoded TLV items (write_payloads, write_tlv) when the section is well-formed, (c) the TLV iterator as a payload, fresh and after having been advanced / exhausted, (d) the decoded address value (with_addresses; write_payload) when a family is specified; every rebuild must equal the original header bytes; non-trivial = header with a payload; distinct = distinct headers"
     }
     fn streams(&self, tier: Tier) -> Vec<StreamSpec> {
         vec![stream("c13-valid", tier.n(40, 250_000, 25_000_000)), stream("c13-pairs", tier.n(24, 48_000, 2_400_000))]
